@@ -74,6 +74,9 @@ static void vfh_digest(mpz_ptr r, unsigned n, const long *vals) {
   vf_assume(vfh_hn < H_HMAX);
   unsigned long o = vf_nondet_below(1UL << H_DBITS);
   if (vfh_forbid_on) vf_assume((long)o != vfh_forbid);
+#ifdef H_DIGEST_UNIT
+  vf_assume(o % H_Q != 0);      // stated exceptional set: challenges that vanish modulo q
+#endif
 #ifdef H_COLLISION_FREE
   for (unsigned e = 0; e < H_HMAX; ++e) { if (e >= vfh_hn) break; vf_assume(vfh_hout[e] != o); }
 #endif
